@@ -37,6 +37,7 @@ import (
 	"time"
 
 	"github.com/MinterTeam/minter-go-node/coreV2/types"
+	abci "github.com/tendermint/tendermint/abci/types"
 	"pgregory.net/rapid"
 	"verif/harness/sim"
 )
@@ -56,7 +57,8 @@ func TestC25ConcurrentReads(t *testing.T) {
 		twin.Name = "twin"
 		r.Mirrors = []*sim.Node{twin}
 
-		var stop int32
+		var stop, paused, inflight int32
+		restarts := 0
 		var reads, readerPanics int64
 		var wg sync.WaitGroup
 		coinIDs := append([]uint64{0}, h.G.V.CoinIDs...)
@@ -69,7 +71,18 @@ func TestC25ConcurrentReads(t *testing.T) {
 		reader := func(id int) {
 			defer wg.Done()
 			for i := id; atomic.LoadInt32(&stop) == 0; i++ {
+				// the readers pause while the node object is being replaced by a restart
+				if atomic.LoadInt32(&paused) == 1 {
+					time.Sleep(50 * time.Microsecond)
+					continue
+				}
+				atomic.AddInt32(&inflight, 1)
+				if atomic.LoadInt32(&paused) == 1 {
+					atomic.AddInt32(&inflight, -1)
+					continue
+				}
 				func() {
+					defer atomic.AddInt32(&inflight, -1)
 					defer func() {
 						if p := recover(); p != nil {
 							if atomic.AddInt64(&readerPanics, 1) == 1 {
@@ -150,7 +163,29 @@ func TestC25ConcurrentReads(t *testing.T) {
 			}
 		}()
 		r.H.BeforeTx = func(*sim.TxMeta) { tick() }
-		r.H.AfterBegin = func(sim.BlockReq) { tick() }
+		if os.Getenv("C25_DEBUG") != "" {
+			cmp := func(where string) {
+				a, b := n.App.CurrentState(), twin.App.CurrentState()
+				for _, c := range a.Candidates().GetCandidates() {
+					sa, sb := a.Candidates().GetStakes(c.PubKey), b.Candidates().GetStakes(c.PubKey)
+					if len(sa) != len(sb) {
+						fmt.Printf("DEBUG %s: candidate %d stakes %d vs %d\n", where, c.ID, len(sa), len(sb))
+						continue
+					}
+					for i := range sa {
+						if sa[i].Value.Cmp(sb[i].Value) != 0 || sa[i].Owner != sb[i].Owner {
+							fmt.Printf("DEBUG %s: candidate %d stake %d %s/%d: %s vs twin %s\n", where, c.ID, i, sa[i].Owner, sa[i].Coin, sa[i].Value, sb[i].Value)
+						}
+					}
+				}
+			}
+			r.H.AfterTx = func(m *sim.TxMeta, _ abci.ResponseDeliverTx) { cmp("after tx " + m.Kind) }
+			r.H.AfterEnd = func(hh uint64, _ abci.ResponseEndBlock) { cmp(fmt.Sprintf("after EndBlock %d", hh)) }
+			r.H.AfterBegin = func(q sim.BlockReq) { tick(); cmp(fmt.Sprintf("after BeginBlock %d", q.Height)) }
+		}
+		if r.H.AfterBegin == nil {
+			r.H.AfterBegin = func(sim.BlockReq) { tick() }
+		}
 		r.H.BeforeEnd = func(uint64) { tick() }
 		finish := func() {
 			atomic.StoreInt32(&stop, 1)
@@ -160,16 +195,33 @@ func TestC25ConcurrentReads(t *testing.T) {
 
 		nb := rapid.IntRange(3, scale(12, 30)).Draw(t, "nBlocks")
 		for i := 0; i < nb && !r.Halted; i++ {
+			if i > 0 && sim.U(t, "restart", 4) == 0 {
+				// restart of the loaded node: every cache is cold again, and the readers resume at the
+				// same moment as block execution (first accesses of both sides race)
+				atomic.StoreInt32(&paused, 1)
+				for atomic.LoadInt32(&inflight) != 0 {
+					runtime.Gosched()
+				}
+				n.Restart()
+				restarts++
+				r.Steps = append(r.Steps, "RESTART (readers paused during the restart)")
+				atomic.StoreInt32(&paused, 0)
+			}
 			if !r.Block(t) {
 				finish()
 				if r.Divergence != "" {
-					violation(t, "c25-perturbed", r, "block execution under concurrent reads differs from the unloaded twin: %s", r.Divergence)
+					diff := sim.DiffTrees(n.TreeDump(), twin.TreeDump())
+					if len(diff) > 8 {
+						diff = diff[:8]
+					}
+					violation(t, "c25-perturbed", r, "block execution under concurrent reads differs from the unloaded twin: %s\nstate tree differences (loaded node vs twin): %v", r.Divergence, diff)
 				}
 				violation(t, "c25-panic-under-load", r, "%s", r.PanicReport())
 			}
 		}
 		finish()
 		sim.S.LabelN("C25/reads", int(atomic.LoadInt64(&reads)))
+		sim.S.LabelN("C25/restarts-under-load", restarts)
 		sim.S.LabelN("C25/reader-panics-recovered", int(atomic.LoadInt64(&readerPanics)))
 		sim.S.LabelN("C25/pools-created", r.KindsOK["createPool"])
 		sim.S.Case("TestC25ConcurrentReads", r.KindsOK["createPool"] > 0 && atomic.LoadInt64(&reads) > 100, sim.HashStrings(r.Steps), func() interface{} { return sim.HistorySample(r.Steps, 20) })
